@@ -322,9 +322,11 @@ def directory_names(ctx, home, quick):
     shapes = [("chain", 3, {0: [1], 1: [2]}), ("diamond", 4, {0: [1, 2], 1: [3], 2: [3]}), ("fan", 3, {0: [1, 2]}), ("single", 1, {})]
     jobs = []
     for sname, n, adj in shapes:
-        for hn in HOSTILE_DIR_NAMES:
+        for hn in HOSTILE_DIR_NAMES + ["@symlink"]:
             for pos in (["all"] + list(range(n))):
                 if quick and pos not in ("all", 0, n - 1):
+                    continue
+                if hn == "@symlink" and (pos == 0 or n == 1):
                     continue
                 if pos in ("all", 0) and "/" in hn:
                     continue            # the root keeps one path component (the output directories sit next to it)
@@ -349,7 +351,19 @@ def directory_names(ctx, home, quick):
             return hn if i == pos else "p%d" % i
         base = os.path.join(ctx.workdir, "cases", "dn_%d" % k)
         shutil.rmtree(base, ignore_errors=True)
-        pkgdir = write_graph(base, n, adj, dir_of=dir_of, import_path=lambda i, j: os.path.relpath(dir_of(j), dir_of(i)))
+        if hn == "@symlink":
+            # the package directories are symbolic links to directories that live elsewhere (a vendored / shared checkout): written under real/, linked by name
+            def dir_of(i):
+                return "p%d" % i
+            write_graph(os.path.join(base, "real"), n, adj)
+            for i in range(n):
+                if i != 0 and (pos == "all" or i == pos):      # the root stays a real directory: its output paths are relative to it
+                    os.symlink(os.path.join("real", "p%d" % i), os.path.join(base, "p%d" % i))
+                else:
+                    os.rename(os.path.join(base, "real", "p%d" % i), os.path.join(base, "p%d" % i))
+            pkgdir = os.path.join(base, "p0")
+        else:
+            pkgdir = write_graph(base, n, adj, dir_of=dir_of, import_path=lambda i, j: os.path.relpath(dir_of(j), dir_of(i)))
         p, parsed, dump = observe(pkgdir, home)
         ctx.ev()
         ctx.count("directory-names")
